@@ -161,8 +161,49 @@ def inplace_on_inherited_dtype(prog, fi):
                     isinstance(c.args[0], ast.Name) and \
                     c.args[0].id in fi.params:
                 inherited[st.targets[0].id] = st
+        # v = <param>.copy()
+        if isinstance(st, ast.Assign) and len(st.targets) == 1 and \
+                isinstance(st.targets[0], ast.Name) and \
+                isinstance(st.value, ast.Call) and \
+                isinstance(st.value.func, ast.Attribute) and \
+                st.value.func.attr == "copy" and not st.value.args and \
+                isinstance(st.value.func.value, ast.Name) and \
+                st.value.func.value.id in fi.params:
+            inherited[st.targets[0].id] = st
     out = []
+
+    def floaty(e):
+        """an arithmetic expression that is not integral for integer
+        operands: true division, a float literal, pi / e"""
+        for x in ast.walk(e):
+            if isinstance(x, ast.BinOp) and isinstance(x.op, ast.Div):
+                return True
+            if isinstance(x, ast.Constant) and isinstance(x.value, float):
+                return True
+            if isinstance(x, ast.Attribute) and x.attr in ("pi", "e") and \
+                    norm(x.value) in ("np", "numpy", "math"):
+                return True
+            if isinstance(x, ast.Call) and \
+                    norm(x.func).split(".")[-1] in (
+                        "radians", "degrees", "sin", "cos", "tan", "sqrt",
+                        "arcsin", "arccos", "arctan2", "deg2rad", "rad2deg"):
+                return True
+        return False
     for st in ast.walk(fi.node):
+        if isinstance(st, ast.Assign) and len(st.targets) == 1 and \
+                isinstance(st.targets[0], ast.Subscript):
+            b = st.targets[0]
+            while isinstance(b, ast.Subscript):
+                b = b.value
+            if isinstance(b, ast.Name) and b.id in inherited and \
+                    isinstance(st.value, (ast.BinOp, ast.Call)) and \
+                    floaty(st.value):
+                out.append((st, "%s is %s, so it has the caller's dtype; "
+                            "`%s` stores a fractional value into it (for "
+                            "integer input the value is truncated: pi/2 - 0 "
+                            "becomes 1)" %
+                            (b.id, norm(inherited[b.id].value, 40),
+                             norm(st, 50))))
         if isinstance(st, ast.AugAssign):
             b = st.target
             while isinstance(b, ast.Subscript):
